@@ -192,7 +192,10 @@ def r1b(ctx, sc):
             n += 1
             if not R:
                 n += 1
-                rep.fail('C08.R1', k0 + 'restore', fwhere(fn), '%s edits the buffer but never puts the hold character back [variant %s]' % (nm, v.name), variant=v.describe())
+                # the key says whether yytext is an array: there the restore goes into the copy (D38), which must not mask
+                # a missing restore in a %pointer scanner
+                arr = ':yytext-is-array' if 'M4_MODE_YYTEXT_IS_ARRAY' in variants.mode_symbols(v) else ''
+                rep.fail('C08.R1', k0 + 'restore' + arr, fwhere(fn), '%s edits the buffer but never puts the hold character back [variant %s]' % (nm, v.name), variant=v.describe())
                 continue
             # b1: a restore dominates every other byte access and every store of the saved position
             #     (reads of the token text itself - addresses derived from yytext_ptr only, e.g. the yylineno loop of yyless -
